@@ -57,8 +57,21 @@ Proof. exact bgp_should_announce_partial. Qed.
 Theorem C10_literal_implies_announce : forall me v, c10_literal me v -> bgp_decide me v = RAnnounce.
 Proof. exact literal_implies_code. Qed.
 
+(* (for the reference order of the tests, which reports "not owner" first) *)
 Theorem C10_not_owner_iff : forall me v, bgp_decide me v = RNotOwner <-> ~ adv_selects me v.
 Proof. exact bgp_reason_not_owner. Qed.
+
+(* the REASON reported for a refusal is a free choice among the conditions that fail (the order of the tests): the
+   correspondence validates the implementation's reason with [reason_applies] and compares the DECISION only.
+   The reference order reports an applicable reason; "announce" is applicable iff the decision is announce; any other
+   applicable reason implies the decision is "do not announce" - so the accepted outcomes all agree on the decision *)
+Theorem C10_reference_reason_applies : forall me v, reason_applies me v (bgp_decide me v) = true.
+Proof. exact reason_of_decide_applies. Qed.
+Theorem C10_announce_reason_iff_decision : forall me v, reason_applies me v RAnnounce = true <-> bgp_decide me v = RAnnounce.
+Proof. exact announce_applies_iff. Qed.
+Theorem C10_other_reason_means_no_announcement : forall me v r,
+  r <> RAnnounce -> reason_applies me v r = true -> bgp_decide me v <> RAnnounce.
+Proof. exact other_reason_means_no. Qed.
 
 (* ---- the same iff at every quiescent point of every history of the speaker (Model/Speaker.v):
    after any event list followed by the re-syncs it requests (no F25 staleness; F9 does not matter
